@@ -517,7 +517,7 @@ def c10(report, rng, tier, findings):
         nv = nfree + 1
         u = nfree                      # the universal variable is declared last (ids 0..nfree-1 are free)
         cfg = gen.Cfg(n_vars=(nv, nv), n_objs=(2, 4), depth=2, preds=False, share_domain=0.3, empty_domain=0.0,
-                      int_range=(0, 3))
+                      int_range=(0, 3), falsy=0.4)
         base = gen.gen_case(rng, cfg, f'c{i}')
         free_ids = list(range(nfree))
         mode = rng.choice(('both', 'both', 'both', 'free_only', 'u_only'))
@@ -538,6 +538,11 @@ def c10(report, rng, tier, findings):
         case['vars'] = [v if v[0] != u else (u, 'A', uraw) for v in base['vars']]
         case.update({'sel': sel, 'cond': outer or None, 'forall': (u, [body]), 'entity': len(sel) == 1,
                      'fa_mode': mode})
+        # the universal argument may be an EXPRESSION over the universal variable (its values, falsy ones
+        # included, are values, not conditions); it quantifies over the same objects
+        if rng.random() < 0.4:
+            case['forall_expr'] = rng.choice([('attr', 'b', ('var', u)), ('attr', 'a', ('var', u)),
+                                              ('attr', 'ref', ('var', u)), ('attr', 'flag', ('var', u))])
         cases.append(case)
     report.rule = ("queries an(set_of(free, [outer,] for_all(u, c))) with 1-2 free variables and a universal variable over 1-4 "
                    "objects; c mentions the universal and the free variables, only the free ones, or only the universal one; "
@@ -582,6 +587,7 @@ def c10(report, rng, tier, findings):
     judge = J(report, findings, 'C10', nontrivial=nontriv)
     for c in cases:
         report.count('mode_' + c['fa_mode'])
+        report.count('universal_expression' if c.get('forall_expr') else 'universal_variable')
         report.count('universal_values_%d' % len([1 for v in c['vars'] if v[0] == c['forall'][0]][0:1]))
     run_query_cases(report, cases, {'caching': (False, True), 'evals': 2}, judge)
     return ['EqlModel.Props.C10'], [
@@ -709,6 +715,9 @@ def c04_impl(job):
         (enable_caching if caching else disable_caching)()
         key = 'on' if caching else 'off'
         steps = []
+        from .qcheck import CacheProbe
+        probe = CacheProbe()
+        probe.__enter__()
         try:
             b = impl.Built(case)
             # snapshot of the user's data
@@ -754,10 +763,11 @@ def c04_impl(job):
                         b.counter.raise_at = None
             unchanged = all([id(x) for x in raws[vid]] == [id(b.decode(v)) for v in raw] for vid, _, raw in case['vars']) \
                 and snap_objs == [dict(vars(o)) for o in b.objs]
-            out['runs'][key] = {'steps': steps, 'data_unchanged': unchanged}
+            out['runs'][key] = {'steps': steps, 'data_unchanged': unchanged, 'nonuniform': probe.nonuniform}
         except Exception as e:
             out['runs'][key] = {'exc': f'{type(e).__name__}: {str(e)[:200]}', 'steps': steps}
         finally:
+            probe.__exit__()
             enable_caching()
             impl.reset_library_state()
     return out
@@ -836,7 +846,7 @@ def c04(report, rng, tier, findings):
                 elif kind == 'take' and not set(rows_) <= set(spec):
                     bad = f'step {si + 1} ({case["hist"][si]}): a partial evaluation returned rows outside the fresh answer'
                 if bad:
-                    if key == 'on' and 'C05-F1' in fnd and len(case['vars']) > 1 and \
+                    if key == 'on' and 'C05-F1' in fnd and len(case['vars']) > 1 and run.get('nonuniform') and \
                             'off' in res['runs'] and 'exc' not in res['runs']['off'] and \
                             all(k not in ('full', 'noraise') or
                                 canon_(r) == canon_(res['specs'][q_]) for k, q_, r in res['runs']['off']['steps']):
